@@ -98,6 +98,14 @@ def run_case(ctx, fam, M, k, sel, dtype, tag="rand"):
     hyps3 = [(h.transcript, float(h.vis_sc)) for h in boh3]
     ctx.check(sorted(hyps3) == sorted(hyps), "result_depends_on_decoder_history",
               lambda: "fresh decoder %r, the same decoder after another line and a rejected line %r; " % (sorted(hyps), sorted(hyps3)) + desc())
+    # a decoder that was deep-copied or pickled and restored (sent to a worker process) decodes like the original
+    import copy as _copy
+    import pickle as _pickle
+    for how, clone in (("deepcopy", _copy.deepcopy(dec)), ("pickle", _pickle.loads(_pickle.dumps(dec)))):
+        with np.errstate(all="ignore"):
+            boh_c = ctx.must("decoder_raises", clone, logits.copy())
+        ctx.check(sorted((h.transcript, float(h.vis_sc)) for h in boh_c) == sorted(hyps), "copied_decoder_decodes_differently",
+                  lambda: "%s: %r, original %r; " % (how, sorted((h.transcript, float(h.vis_sc)) for h in boh_c), sorted(hyps)) + desc())
     # the documented symbol_separator option (used with multi-character symbols) only changes how a prefix is written
     if C <= 16:
         sep_dec = CTCPrefixLogRawNumpyDecoder(letters_for(C), k, relevant_logits_selector=selector_for(sel), symbol_separator="|")
